@@ -5,6 +5,7 @@ package kubernetes
 // Contracts checked by /verif (govc). Comment-only: no executable code. StatefulSet numbering (C10).
 
 //@ func NewStatefulSetMembership
+//@ params config
 //@ props C10 C15
 //@ requires config != nil && logger.Log != nil
 //@ let ordinal = dret("kubernetes.getPodOrdinalFromHostname", 0, 0)
@@ -19,6 +20,7 @@ package kubernetes
 //@ modifies nothing
 
 //@ func NewHaMembership
+//@ params _ bus
 //@ props C10 C15
 //@ requires bus != nil && logger.Log != nil
 //@ ensures.kind[C10,C15] typeis(result, "*haMembership") && fresh(as(result, "*haMembership")) && as(result, "*haMembership").info == nil
